@@ -422,3 +422,33 @@ func independenceSection() {
 	sec := R.Sec("independence")
 	sec.Bounds["what"] = "a fixed every-k-th sample of the cases of the other sections (except real-pubsubmon, where every metric vector already has its own peer) is re-run, each on a fresh peer in a fresh bubble, and must show the same observation (same verdict, same list sizes; identical lists when the property leaves no freedom); a difference is reported as a broken check"
 }
+
+// ---- the adder commits what BlockAllocate decided ----------------------------
+
+// adderUnits: an add asks Cluster.BlockAllocate where the content goes, sends
+// every block there and finally pins with that decision preset. When some
+// destinations cannot take a block (here: every peer but the one under test is
+// unreachable) the committed list is still the decision: no peer twice, none
+// replaced. The peer under test sits at every position of the decision.
+func adderUnits() []unit {
+	s := R.Sec("adder-commits-the-decision")
+	s.Bounds["what"] = "real adder (single DAG service, one small file) on the real peer: 3 peers with metric values in every order x factors (2,2),(3,3) x both allocators; BlockPut reaches the peer under test only; judged: the stored allocation list equals Cluster.BlockAllocate's answer (as a set, no duplicates)"
+	perms := [][]int{{stV2, stV10, stV30}, {stV2, stV30, stV10}, {stV10, stV2, stV30}, {stV10, stV30, stV2}, {stV30, stV2, stV10}, {stV30, stV10, stV2}}
+	var units []unit
+	for _, alloc := range []string{"ascend", "descend"} {
+		alloc := alloc
+		units = append(units, unit{
+			name: "adder-" + alloc,
+			opts: rigOpts{alloc: alloc, defMin: -1, defMax: -1},
+			body: func(r *rig) {
+				for _, st := range perms {
+					r.setMetrics(3, st, defaultNonNum)
+					for _, pr := range []pair{{2, 2}, {3, 3}} {
+						r.runAdderCase(st, pr)
+					}
+				}
+			},
+		})
+	}
+	return units
+}
